@@ -1,5 +1,6 @@
 import CoreBGP.Model.Peer
 import CoreBGP.Lemmas.Peer
+import CoreBGP.Lemmas.PeerLocal
 /-!
 # C11 (L2 half) — reconnection: a passive peer never dials; an ended inbound session re-enables dialling
 and admission. (Retry pacing and the time bound are real-time statements: the idle-hold timer is
@@ -7,6 +8,7 @@ re-armed at every exit from Idle, `fsm.go:270`; observed by the live engine's pa
 -/
 namespace CoreBGP.Props.C11
 open CoreBGP CoreBGP.Model
+open CoreBGP.Lemmas.PeerLocal
 
 /-- a passive peer has no outbound FSM in any reachable state, hence never dials -/
 theorem passive_never_dials (d : Bool) (s : PState) (h : PReach d true s) :
@@ -17,7 +19,8 @@ theorem passive_never_dials (d : Bool) (s : PState) (h : PReach d true s) :
 sure the outbound FSM exists again -/
 theorem inbound_down_reenables_out (s : PState) (t : Trans) (ht : t.to.rank < t.frm.rank) (hne : t.to ≠ .established) :
     expandHandle s .inn t = [.disableLog .inn, .enable .out false] := by
-  sorry
+  unfold expandHandle
+  rw [if_neg hne, if_pos ⟨rfl, ht⟩]
 
 /-- … and a new outbound FSM starts in Idle with a fresh (immediately due) idle-hold timer: its first
 request is `disabled → idle` -/
@@ -25,13 +28,21 @@ theorem enable_out_starts_idle (s : PState) (rest : List Instr) (hp : s.passive 
     pInstr s (.enable .out false) rest =
       [(.tau, (({ s with todo := rest }.setPresent .out true).setSt .out .disabled).setF .out
           { pc := .req ⟨.disabled, .idle⟩, conn := false })] := by
-  sorry
+  have hq : s.present .out = false := ha
+  simp [pInstr, hq, hp]
 
 /-- once the inbound slot is empty, the peer is not held down and the outbound FSM is not Established,
 the next inbound connection is admitted -/
 theorem next_inbound_admitted (s : PState) (h1 : s.holdDown = false) (h2 : s.presentI = false)
     (h3 : s.stO ≠ .established) (h4 : s.pdone = false) (h5 : s.todo = []) :
     (Label.inConn true, { s with todo := [.enable .inn true] }) ∈ next s := by
-  sorry
+  unfold next
+  rw [h5]
+  apply List.mem_append_left
+  apply List.mem_append_left
+  apply List.mem_append_left
+  apply List.mem_append_left
+  apply inConn_mem_pMain h4
+  simp [h1, h2, h3]
 
 end CoreBGP.Props.C11
